@@ -1764,6 +1764,626 @@ func (c *c18) pubWitnessCase() {
 }
 
 // ---------------------------------------------------------------------------
+// (v) UtxoSweeper: pending-input state machine, driven synchronously
+
+// c18Store is a scripted SweeperStore: GetTx knows every tx (fee rate getRate)
+// when getRate >= 0, IsOurTx answers from the `ours` table.
+type c18Store struct {
+	getRate int64
+	ours    map[chainhash.Hash]bool
+}
+
+func (s *c18Store) IsOurTx(h chainhash.Hash) bool  { return s.ours[h] }
+func (s *c18Store) StoreTx(*TxRecord) error         { return nil }
+func (s *c18Store) ListSweeps() ([]chainhash.Hash, error) { return nil, nil }
+func (s *c18Store) GetTx(h chainhash.Hash) (*TxRecord, error) {
+	if s.getRate < 0 {
+		return nil, ErrTxNotFound
+	}
+	return &TxRecord{Txid: h, FeeRate: uint64(s.getRate), Fee: 1}, nil
+}
+func (s *c18Store) DeleteTx(chainhash.Hash) error { return nil }
+
+// c18Mempool answers LookupInputMempoolSpend from a flag.
+type c18Mempool struct{ spent bool }
+
+func (m *c18Mempool) SubscribeMempoolSpent(wire.OutPoint) (*chainntnfs.MempoolSpendEvent, error) {
+	return nil, errC18Other
+}
+func (m *c18Mempool) CancelMempoolSpendEvent(*chainntnfs.MempoolSpendEvent) {}
+func (m *c18Mempool) LookupInputMempoolSpend(wire.OutPoint) fn.Option[wire.MsgTx] {
+	if m.spent {
+		return fn.Some(wire.MsgTx{Version: 2, LockTime: 77})
+	}
+	return fn.None[wire.MsgTx]()
+}
+
+// c18AggWrap records the sets the real aggregator hands to the sweeper.
+type c18AggWrap struct {
+	inner UtxoAggregator
+	sets  []InputSet
+}
+
+func (a *c18AggWrap) ClusterInputs(m InputsMap) []InputSet {
+	sets := a.inner.ClusterInputs(m)
+	a.sets = append(a.sets, sets...)
+	return sets
+}
+
+// c18RealRec is a request handed to the REAL TxPublisher by the sweeper.
+type c18RealRec struct {
+	rec     *monitorRecord
+	sub     chan *BumpResult
+	req     *BumpRequest
+	members []int
+	set     InputSet
+	seen    bool
+}
+
+// c18Bumper records the requests of UtxoSweeper.sweep; with tp != nil every
+// request is also registered with the real TxPublisher exactly as
+// TxPublisher.Broadcast does (the harness then drives the publisher's
+// handlers synchronously, block by block).
+type c18Bumper struct {
+	reqs []*BumpRequest
+	tp   *TxPublisher
+	recs []*c18RealRec
+}
+
+func (b *c18Bumper) Broadcast(req *BumpRequest) <-chan *BumpResult {
+	b.reqs = append(b.reqs, req)
+	if b.tp != nil {
+		rec := b.tp.storeInitialRecord(req)
+		sub := make(chan *BumpResult, 16)
+		b.tp.subscriberChans.Store(rec.requestID, sub)
+		b.recs = append(b.recs, &c18RealRec{rec: rec, sub: sub, req: req})
+		if req.Immediate {
+			b.tp.handleInitialBroadcast(rec)
+		}
+	}
+	return make(chan *BumpResult)
+}
+
+type c18LiveSet struct {
+	members []int
+	set     InputSet
+	phase   int // 0: handed to the publisher, 1: a tx was published
+}
+
+func c18OptS(o fn.Option[chainfee.SatPerKWeight]) string {
+	st := "none"
+	o.WhenSome(func(x chainfee.SatPerKWeight) { st = strconv.FormatInt(int64(x), 10) })
+	return st
+}
+
+// swpCase drives the real UtxoSweeper (handlers called synchronously in the
+// order the collector would). real=false: the publisher is a recorder and the
+// BumpResults are scripted; real=true: the requests go to the REAL TxPublisher
+// (initial broadcast / fee bump per block, all results fed back).
+func (c *c18) swpCase(real bool) {
+	c.n++
+	relay := c.pick(253, 253, 1000)
+	maxInputs := uint32(c.pick(2, 3, 100, 100))
+	noDl := uint32(c.pick(1008, 144, 6))
+	height := int32(100 + c.rng.Intn(1000))
+
+	// wallet UTXOs (pairwise different values)
+	var utxos []*lnwallet.Utxo
+	var utxoS []string
+	nUtxo := c.rng.Intn(3)
+	if real {
+		// no signer in the harness: real sweep txs cannot carry wallet inputs
+		nUtxo = 0
+	}
+	for k := 0; k < nUtxo; k++ {
+		v := int64(1000*(k+1)) + c.rng.Int63n(900) + c.pick(0, 20000, 400000)
+		var h chainhash.Hash
+		c.rng.Read(h[:])
+		utxos = append(utxos, &lnwallet.Utxo{
+			AddressType: lnwallet.WitnessPubKey, Value: btcutil.Amount(v), Confirmations: 6,
+			PkScript: c18P2WKH, OutPoint: wire.OutPoint{Hash: h, Index: uint32(900 + k)},
+		})
+		utxoS = append(utxoS, strconv.FormatInt(v, 10))
+	}
+
+	est := &c18Est{relay: chainfee.SatPerKWeight(relay), rate: chainfee.SatPerKWeight(relay + 100)}
+	wallet := &c18Wallet{h: c, backend: "bitcoind", utxos: utxos}
+	store := &c18Store{getRate: -1, ours: map[chainhash.Hash]bool{}}
+	mem := &c18Mempool{}
+	agg := &c18AggWrap{inner: NewBudgetAggregator(est, maxInputs, fn.None[AuxSweeper]())}
+	bumper := &c18Bumper{}
+	if real {
+		est.rate = chainfee.SatPerKWeight(relay + c.rng.Int63n(800))
+		bumper.tp = NewTxPublisher(TxPublisherConfig{
+			Estimator: est, Wallet: wallet, Notifier: &c18Notifier{},
+			AuxSweeper: fn.None[AuxSweeper](),
+		})
+		bumper.tp.currentHeight.Store(height)
+	}
+	s := New(&UtxoSweeperConfig{
+		GenSweepScript: func() fn.Result[lnwallet.AddrWithKey] {
+			return fn.Ok(lnwallet.AddrWithKey{DeliveryAddress: c18P2TR})
+		},
+		FeeEstimator: est, Wallet: wallet, Notifier: &c18Notifier{}, Mempool: mem,
+		Store: store, MaxInputsPerTx: maxInputs, MaxFeeRate: chainfee.SatPerVByte(c.pick(1000, 1000, 20, 5)), Aggregator: agg,
+		Publisher: bumper, NoDeadlineConfTarget: noDl,
+	})
+	s.relayFeeRate = chainfee.SatPerKWeight(relay)
+	s.currentHeight = height
+	defer close(s.quit)
+
+	c.pf("CASE %d kind=swp relay=%d maxinputs=%d nodl=%d height=%d utxos=%s real=%v", c.n, relay,
+		maxInputs, noDl, height, c18Join(utxoS), real)
+
+	var universe []*c18Input
+	idxOf := func(op wire.OutPoint) int {
+		for k, u := range universe {
+			if u.op == op {
+				return k
+			}
+		}
+		return -1
+	}
+	usedBudget := map[int64]bool{}
+	dls := []int32{height + int32(3+c.rng.Intn(20)), height + int32(30+c.rng.Intn(300))}
+	randParams := func() (Params, string) {
+		budget := 2000 + c.rng.Int63n(60000)
+		if c.rng.Intn(12) == 0 {
+			budget = c.pick(0, 1, 100, 150, 400)
+		}
+		for usedBudget[budget] {
+			budget++
+		}
+		usedBudget[budget] = true
+		p := Params{Budget: btcutil.Amount(budget), Immediate: c.rng.Intn(6) == 0}
+		dlS := "none"
+		if c.rng.Intn(5) != 0 {
+			dl := dls[c.rng.Intn(len(dls))]
+			p.DeadlineHeight = fn.Some(dl)
+			dlS = strconv.Itoa(int(dl))
+		}
+		if c.rng.Intn(4) == 0 {
+			r := relay + c.rng.Int63n(5000)
+			if c.rng.Intn(8) == 0 {
+				r = c.pick(0, 1, 100000)
+			}
+			p.StartingFeeRate = fn.Some(chainfee.SatPerKWeight(r))
+		}
+		grpS := "none"
+		if c.rng.Intn(6) == 0 {
+			g := uint64(1 + c.rng.Intn(2))
+			p.ExclusiveGroup = &g
+			grpS = strconv.FormatUint(g, 10)
+		}
+		return p, fmt.Sprintf("budget=%d deadline=%s start=%s immediate=%v group=%s", budget,
+			dlS, c18OptS(p.StartingFeeRate), p.Immediate, grpS)
+	}
+
+	var live []*c18LiveSet
+	txCounter := uint32(1000)
+	newTx := func(ins []int) *wire.MsgTx {
+		txCounter++
+		tx := &wire.MsgTx{Version: 2, LockTime: txCounter}
+		for _, k := range ins {
+			tx.TxIn = append(tx.TxIn, &wire.TxIn{PreviousOutPoint: universe[k].op})
+		}
+		return tx
+	}
+
+	// state dump: every pending input and the requests issued during the op
+	dump := func(known bool) {
+		var rows []string
+		var keys []int
+		byIdx := map[int]*SweeperInput{}
+		for op, pi := range s.inputs {
+			k := idxOf(op)
+			keys = append(keys, k)
+			byIdx[k] = pi
+		}
+		sort.Ints(keys)
+		for _, k := range keys {
+			pi := byIdx[k]
+			g := "none"
+			if pi.params.ExclusiveGroup != nil {
+				g = strconv.FormatUint(*pi.params.ExclusiveGroup, 10)
+			}
+			rows = append(rows, fmt.Sprintf("%d:%s:%d:%d:%d:%s:%v:%s:%d", k, pi.state,
+				pi.publishAttempts, int64(pi.params.Budget), pi.DeadlineHeight,
+				c18OptS(pi.params.StartingFeeRate), pi.params.Immediate, g, int64(pi.lastFeeRate)))
+		}
+		var reqs []string
+		for _, r := range bumper.reqs {
+			var ms, ws []string
+			for _, in := range r.Inputs {
+				if k := idxOf(in.OutPoint()); k >= 0 {
+					ms = append(ms, strconv.Itoa(k))
+				} else {
+					ws = append(ws, strconv.FormatInt(in.SignDesc().Output.Value, 10))
+				}
+			}
+			reqs = append(reqs, fmt.Sprintf("%s/%s/%d/%d/%s/%v", c18Join(ms), c18Join(ws),
+				int64(r.Budget), r.DeadlineHeight, c18OptS(r.StartingFeeRate), r.Immediate))
+		}
+		sort.Strings(reqs)
+		bumper.reqs = nil
+		// the sets swept in this op become live sets
+		for _, set := range agg.sets {
+			var ms []int
+			swept := false
+			for _, in := range set.Inputs() {
+				if k := idxOf(in.OutPoint()); k >= 0 {
+					ms = append(ms, k)
+					if pi, ok := s.inputs[in.OutPoint()]; ok && pi.state == PendingPublish {
+						swept = true
+					}
+				}
+			}
+			if swept {
+				live = append(live, &c18LiveSet{members: ms, set: set})
+				for _, rr := range bumper.recs {
+					if rr.set != nil {
+						continue
+					}
+					same := len(rr.req.Inputs) == len(ms)
+					for j := 0; same && j < len(ms); j++ {
+						same = idxOf(rr.req.Inputs[j].OutPoint()) == ms[j]
+					}
+					if same {
+						rr.set, rr.members = set, ms
+						break
+					}
+				}
+			}
+		}
+		agg.sets = nil
+		// ids of the publisher records created in this op (real publisher only)
+		var newRids []string
+		for _, rr := range bumper.recs {
+			if !rr.seen {
+				rr.seen = true
+				newRids = append(newRids, strconv.FormatUint(rr.rec.requestID, 10))
+			}
+		}
+		c.pf("st => known=%v h=%d ins=%s reqs=%s newrids=%s", known, s.currentHeight,
+			c18Join(rows), strings.Join(append([]string{}, reqs...), "|")+func() string {
+				if len(reqs) == 0 {
+					return "-"
+				}
+				return ""
+			}(), c18Join(newRids))
+	}
+	guard := func(f func()) {
+		defer func() {
+			if r := recover(); r != nil {
+				c.pf("panic %v", r)
+			}
+		}()
+		f()
+	}
+	sweepNow := func() {
+		inputs := s.updateSweeperInputs()
+		s.sweepPendingInputs(inputs)
+	}
+
+	// deliver feeds every result the real publisher produced back into the
+	// sweeper, as monitorFeeBumpResult + the collector would.
+	deliver := func() {
+		for _, rr := range append([]*c18RealRec{}, bumper.recs...) {
+			for {
+				var res *BumpResult
+				select {
+				case res = <-rr.sub:
+				default:
+				}
+				if res == nil || rr.set == nil {
+					break
+				}
+				var ms []string
+				for _, m := range rr.members {
+					ms = append(ms, strconv.Itoa(m))
+				}
+				s.updateSweeperInputs()
+				c.pf("op result members=%s event=%s rate=%d fee=%d err=%s rid=%d oldknown=true spent=-", c18Join(ms),
+					res.Event, int64(res.FeeRate), int64(res.Fee), c18ErrName(res.Err), rr.rec.requestID)
+				store.getRate = 300
+				guard(func() { _ = s.handleBumpEvent(&bumpResp{result: res, set: rr.set}) })
+				store.getRate = -1
+				dump(true)
+			}
+		}
+	}
+	// one block of the real publisher: initial broadcast of the records that
+	// have no tx yet, a fee bump for the others (as processRecords does when
+	// nothing is spent).
+	publisherBlock := func(h int32) {
+		bumper.tp.currentHeight.Store(h)
+		wallet.inputs = universe
+		for _, rr := range append([]*c18RealRec{}, bumper.recs...) {
+			if _, ok := bumper.tp.records.Load(rr.rec.requestID); !ok || rr.set == nil {
+				continue
+			}
+			var ms []string
+			for _, m := range rr.members {
+				ms = append(ms, strconv.Itoa(m))
+			}
+			wb, _ := calcSweepTxWeight(rr.req.Inputs, [][]byte{c18P2TR})
+			c.pf("pubop members=%s height=%d budget=%d deadline=%d start=%s maxrate=%d wtx=%d init=%v",
+				c18Join(ms), h, int64(rr.req.Budget), rr.req.DeadlineHeight,
+				c18OptS(rr.req.StartingFeeRate), int64(rr.req.MaxFeeRate), int64(wb), rr.rec.tx == nil)
+			guard(func() {
+				if rr.rec.tx == nil {
+					bumper.tp.handleInitialBroadcast(rr.rec)
+				} else {
+					bumper.tp.wg.Add(1)
+					bumper.tp.handleFeeBumpTx(rr.rec, h)
+				}
+			})
+			// the result reaches the sweeper before the next record is handled
+			deliver()
+		}
+	}
+
+	nops := 8 + c.rng.Intn(22)
+	nFirst := 1 + c.rng.Intn(5)
+	if real {
+		nops = 12 + c.rng.Intn(30)
+		nFirst = 1 + c.rng.Intn(3)
+	}
+	for o := 0; o < nops; o++ {
+		// the collector cleans the inputs at the top of every iteration
+		s.updateSweeperInputs()
+		kind := c.rng.Intn(100)
+		if o < nFirst {
+			kind = 0
+		}
+		if real && o >= nFirst {
+			// offers and updates are rare, everything else is a block
+			switch {
+			case kind < 6:
+				kind = 0
+			case kind < 10:
+				kind = 20
+			default:
+				kind = 40
+			}
+			wallet.inputs = universe
+		}
+		switch {
+		case kind < 18 || len(universe) == 0:
+			// offer a new input, or re-offer a known one
+			var inp *c18Input
+			k := -1
+			if len(universe) > 0 && c.rng.Intn(5) == 0 {
+				k = c.rng.Intn(len(universe))
+				old := universe[k]
+				cp := *old
+				inp = &cp
+			} else {
+				var h chainhash.Hash
+				c.rng.Read(h[:])
+				v := 200000 + c.rng.Int63n(5000000)
+				if real && c.rng.Intn(2) == 0 {
+					// small inputs: the fee ramp crosses "change below dust"
+					v = c.pick(600, 1000, 2000, 5000, 20000) + c.rng.Int63n(400)
+				}
+				inp = &c18Input{
+					op: wire.OutPoint{Hash: h, Index: uint32(len(universe))},
+					sd: input.SignDescriptor{Output: &wire.TxOut{Value: v, PkScript: c18P2WSH}},
+					wt: c18WitnessTypes[c.rng.Intn(len(c18WitnessTypes))],
+				}
+				if c.rng.Intn(6) == 0 {
+					inp.lt, inp.hasLt = uint32(height)+uint32(c.pick(-5, 0, 1, 2, 3)), true
+				}
+				if c.rng.Intn(6) == 0 {
+					inp.csv = uint32(c.pick(0, 1, 144, int64(height), int64(height)+1, int64(height)+3))
+				}
+				if c.rng.Intn(6) == 0 {
+					inp.req = &wire.TxOut{Value: v, PkScript: c18P2WSH}
+					inp.wt = input.HtlcOfferedTimeoutSecondLevel
+				}
+				if _, _, err := inp.wt.SizeUpperBound(); err != nil {
+					continue
+				}
+				if real {
+					// no locktimes / CSV / required outputs here: covered by the
+					// scripted cases and the publisher cases
+					inp.lt, inp.hasLt, inp.csv, inp.req = 0, false, 0, nil
+					if inp.wt == input.HtlcOfferedTimeoutSecondLevel {
+						inp.wt = input.CommitmentTimeLock
+					}
+				}
+				universe = append(universe, inp)
+				k = len(universe) - 1
+			}
+			wsize, _, _ := inp.wt.SizeUpperBound()
+			wu := lntypes.VByte(input.InputSize).ToWU() + wsize
+			wallet.inputs = universe
+			params, ps := randParams()
+			if real && inp.sd.Output.Value < 30000 && c.rng.Intn(3) != 0 {
+				// a budget of the order of the input's value
+				b := inp.sd.Output.Value/2 + c.rng.Int63n(inp.sd.Output.Value)
+				for usedBudget[b] {
+					b++
+				}
+				usedBudget[b] = true
+				old := fmt.Sprintf("budget=%d ", int64(params.Budget))
+				params.Budget = btcutil.Amount(b)
+				ps = strings.Replace(ps, old, fmt.Sprintf("budget=%d ", b), 1)
+			}
+			// mempool / store lookup of decideRBFInfo
+			rbfS := "none"
+			mem.spent, store.getRate = false, -1
+			switch c.rng.Intn(6) {
+			case 0:
+				mem.spent = true
+				store.getRate = relay + c.rng.Int63n(4000)
+				rbfS = strconv.FormatInt(store.getRate, 10)
+			case 1:
+				mem.spent = true // spent in the mempool by a tx we do not know
+			}
+			ltS, reqS := "none", "none"
+			if inp.hasLt {
+				ltS = strconv.FormatUint(uint64(inp.lt), 10)
+			}
+			if inp.req != nil {
+				reqS = strconv.FormatInt(inp.req.Value, 10)
+			}
+			c.pf("op offer idx=%d value=%d wu=%d lt=%s csv=%d req=%s reqsize=34 %s rbf=%s", k,
+				inp.sd.Output.Value, int64(wu), ltS, inp.csv, reqS, ps, rbfS)
+			guard(func() {
+				msg := &sweepInputMessage{input: inp, params: params, resultChan: make(chan Result, 1)}
+				if err := s.handleNewInput(msg); err != nil {
+					c.pf("panic handleNewInput %v", err)
+				}
+				if params.Immediate {
+					sweepNow()
+				}
+			})
+			mem.spent, store.getRate = false, -1
+			dump(true)
+			if real {
+				deliver()
+			}
+
+		case kind < 26:
+			k := c.rng.Intn(len(universe) + 1)
+			var op wire.OutPoint
+			if k < len(universe) {
+				op = universe[k].op
+			} else {
+				op = wire.OutPoint{Index: 424242}
+			}
+			params, ps := randParams()
+			c.pf("op update idx=%d %s", k, ps)
+			known := true
+			guard(func() {
+				_, err := s.handleUpdateReq(&updateReq{input: op, params: params})
+				known = err == nil
+				if params.Immediate {
+					sweepNow()
+				}
+			})
+			dump(known)
+			if real {
+				deliver()
+			}
+
+		case kind < 58:
+			height += int32(c.pick(1, 1, 1, 1, 2, 3, 0))
+			if real {
+				publisherBlock(height)
+				deliver()
+				s.updateSweeperInputs()
+			}
+			c.pf("op block height=%d", height)
+			guard(func() {
+				s.currentHeight = height
+				sweepNow()
+			})
+			dump(true)
+			if real {
+				deliver()
+			}
+
+		case kind < 93 && len(live) > 0:
+			li := c.rng.Intn(len(live))
+			ls := live[li]
+			remove := func() { live = append(live[:li], live[li+1:]...) }
+			res := &BumpResult{Tx: newTx(ls.members), Fee: btcutil.Amount(1 + c.rng.Int63n(5000))}
+			rate := relay + c.rng.Int63n(6000)
+			if c.rng.Intn(10) == 0 {
+				rate = 0
+			}
+			res.FeeRate = chainfee.SatPerKWeight(rate)
+			var spentS []string
+			oldKnown := true
+			ev := c.rng.Intn(10)
+			if c.rng.Intn(15) != 0 {
+				// a sequence the publisher can produce
+				if ls.phase == 0 {
+					ev = []int{0, 0, 0, 0, 2, 2, 3, 4}[c.rng.Intn(8)]
+				} else {
+					ev = []int{1, 1, 1, 1, 2, 3, 5}[c.rng.Intn(7)]
+				}
+			}
+			switch ev {
+			case 0:
+				res.Event = TxPublished
+				ls.phase = 1
+			case 1:
+				res.Event = TxReplaced
+				res.ReplacedTx = newTx(ls.members)
+				if c.rng.Intn(6) == 0 {
+					oldKnown = false
+				}
+			case 2:
+				res.Event, res.Err = TxFailed, ErrNotEnoughBudget
+				remove()
+			case 3:
+				res.Event, res.Err = TxUnknownSpend, ErrUnknownSpent
+				res.SpentInputs = map[wire.OutPoint]*wire.MsgTx{}
+				for _, m := range ls.members {
+					if c.rng.Intn(3) == 0 {
+						stx := newTx([]int{m})
+						ours := c.rng.Intn(3) == 0
+						store.ours[stx.TxHash()] = ours
+						res.SpentInputs[universe[m].op] = stx
+						spentS = append(spentS, fmt.Sprintf("%d:%v", m, ours))
+					}
+				}
+				remove()
+			case 4:
+				res.Event, res.Err, res.Tx = TxFatal, errC18Other, nil
+				remove()
+			default:
+				res.Event = TxConfirmed
+				remove()
+			}
+			var ms []string
+			for _, m := range ls.members {
+				ms = append(ms, strconv.Itoa(m))
+			}
+			c.pf("op result members=%s event=%s rate=%d oldknown=%v spent=%s", c18Join(ms),
+				res.Event, rate, oldKnown, c18Join(spentS))
+			store.getRate = -1
+			if oldKnown {
+				store.getRate = 300
+			}
+			guard(func() {
+				_ = s.handleBumpEvent(&bumpResp{result: res, set: ls.set})
+			})
+			store.getRate = -1
+			dump(true)
+
+		default:
+			if len(universe) == 0 {
+				continue
+			}
+			// a spend notification: a tx spending one to three known inputs
+			var ins []int
+			var insS []string
+			for len(ins) < 1+c.rng.Intn(3) {
+				k := c.rng.Intn(len(universe))
+				ins = append(ins, k)
+				insS = append(insS, strconv.Itoa(k))
+			}
+			tx := newTx(ins)
+			h := tx.TxHash()
+			ours := c.rng.Intn(2) == 0
+			store.ours[h] = ours
+			c.pf("op spend ins=%s ours=%v", c18Join(insS), ours)
+			guard(func() {
+				s.handleInputSpent(&chainntnfs.SpendDetail{
+					SpentOutPoint: &universe[ins[0]].op, SpenderTxHash: &h, SpendingTx: tx,
+				})
+			})
+			dump(true)
+		}
+	}
+	c.pf("END")
+}
+
+// ---------------------------------------------------------------------------
 
 func TestVerifC18(t *testing.T) {
 	out := os.Getenv("VERIF_OUT")
@@ -1799,10 +2419,14 @@ func TestVerifC18(t *testing.T) {
 		int64(lnwallet.DustLimitForSize(100)))
 
 	nFloat, nFF, nLong, nPub, nAgg := 20, 10000, 40, 6000, 2000
-	nRaw, nTop := 300, 1500
+	nRaw, nTop, nSwp := 300, 1500, 1500
 	if tier == "thorough" {
 		nFloat, nFF, nLong, nPub, nAgg = 400, 400000, 1500, 250000, 60000
-		nRaw, nTop = 20000, 60000
+		nRaw, nTop, nSwp = 20000, 60000, 30000
+	}
+	if v, err := strconv.Atoi(os.Getenv("VERIF_C18_ONLY_SWP")); err == nil && v > 0 {
+		// development aid: only the sweeper cases
+		nFloat, nFF, nLong, nPub, nAgg, nRaw, nTop, nSwp = 0, 0, 0, 0, 0, 0, 0, v
 	}
 	for i := 0; i < nFloat; i++ {
 		c.floatCase(400)
@@ -1817,6 +2441,9 @@ func TestVerifC18(t *testing.T) {
 		c.ffRawCase()
 	}
 	c.pubWitnessCase()
+	for i := 0; i < nSwp; i++ {
+		c.swpCase(i%3 == 2)
+	}
 	for i := 0; i < nTop; i++ {
 		c.topupCase()
 	}
